@@ -8,7 +8,7 @@ FUNCS = ["cfg_opt_setnint/-float/-bool/-str", "cfg_opt_getval", "cfg_addval", "c
 
 
 def build_obs(tier, tables=None):
-    return api_obs("c09", ["CHK_C09"], ops=("SETN", "WRONGTYPE", "SETLIST", "ADDLIST", "SETMULTI", "ADDTSEC", "RMNSEC", "RMTSEC", "SETOPT_TEXT"), tier=tier)
+    return api_obs("c09", ["CHK_C09"], ops=("SETN", "WRONGTYPE", "SETLIST", "ADDLIST", "SETMULTI", "ADDTSEC", "RMNSEC", "RMTSEC"), tier=tier)
 
 
 def run(tier, seed):
